@@ -86,8 +86,9 @@ def check_case(spec: dict) -> dict:
 def exh_shard(arg, st, deadline) -> None:
     tkey, shard, nshards, max_edges, root_target, max_s, max_o = arg[:7]
     related = len(arg) > 7 and arg[7]
+    grand = len(arg) > 8 and arg[8]  # imports from a module to a descendant two or more levels below it are candidates too
     tree = RS.TREES[tkey]
-    cand = M.candidate_edges(tree, allow_root_target=root_target, root=tree[0])
+    cand = M.candidate_edges(tree, allow_root_target=root_target, root=tree[0], grand=grand)
     rules = RS.enum_related_rules(tree, max_s, max_o) if related else RS.enum_rules(tree, max_s, max_o, root=tree[0])
     i = 0
     for imports in RS.graphs_of(cand, shard, nshards, max_edges):
@@ -121,7 +122,9 @@ def plan(tier):
     if tier == "quick":
         return [("T4-all-relations", "T4", None, False, 2, 2),
                 ("T4-related-subject-object-pairs", "T4", 3, True, 1, 1, True),
-                ("T4-related-subject-object-batches", "T4", 2, True, 2, 2, True)]
+                ("T4-related-subject-object-batches", "T4", 2, True, 2, 2, True),
+                ("T5-imports-of-deeper-descendants-related", "T5", 2, True, 1, 1, True, True),
+                ("T5-imports-of-deeper-descendants-unrelated", "T5", 2, True, 1, 1, False, True)]
     return [
         ("T4-related-subject-object-pairs", "T4", 6, True, 1, 1, True),
         ("T4-related-subject-object-batches", "T4", 3, True, 2, 2, True),
@@ -129,19 +132,23 @@ def plan(tier):
         ("T4-all-relations-with-root-targets", "T4", None, True, 2, 2),
         ("T6-relations-up-to-3-edges", "T6", 3, False, 2, 2),
         ("T5-relations-up-to-3-edges", "T5", 3, False, 2, 2),
+        ("T5-imports-of-deeper-descendants-related", "T5", 3, True, 1, 1, True, True),
+        ("T5-imports-of-deeper-descendants-unrelated", "T5", 3, True, 2, 2, False, True),
     ]
 
 
 def run_space(ctx, modname) -> None:
-    for name, tkey, max_edges, root_target, max_s, max_o, *rel in plan(ctx.tier):
+    for name, tkey, max_edges, root_target, max_s, max_o, *rest in plan(ctx.tier):
+        rel = bool(rest and rest[0])
+        grand = len(rest) > 1 and bool(rest[1])
         tree = RS.TREES[tkey]
-        n = len(M.candidate_edges(tree, allow_root_target=root_target, root=tree[0]))
+        n = len(M.candidate_edges(tree, allow_root_target=root_target, root=tree[0], grand=grand))
         nsh = 64 if max_edges is None else 128
-        shards = [(tkey, i, nsh, max_edges, root_target, max_s, max_o, bool(rel)) for i in range(nsh)]
+        shards = [(tkey, i, nsh, max_edges, root_target, max_s, max_o, rel, grand) for i in range(nsh)]
         total = RS.count_graphs(n, max_edges)
         scope = (f"{tkey}: all {total} import relations"
                  + (f" with <= {max_edges} edges" if max_edges is not None else "")
-                 + f" over {n} candidate edges x all rules (<= {max_s} subjects, <= {max_o} objects"
+                 + f" over {n} candidate edges" + (" (imports from a module to a descendant two or more levels below it included)" if grand else "") + f" x all rules (<= {max_s} subjects, <= {max_o} objects"
                  + (", some subject being the same module as / an ancestor / a descendant of some object)" if rel else ", subjects unrelated to objects)"))
         ctx.exhaustive(name, modname, "exh_shard", shards, scope)
     ctx.random("random-trees", modname, "strategy", "check_case", 32000 if ctx.tier == "quick" else 400000)
